@@ -13,6 +13,7 @@ import (
 	"fmt"
 	"os"
 	"path/filepath"
+	"strings"
 	"time"
 
 	"verif/harness/internal/vh"
@@ -191,7 +192,9 @@ func crossWallet(run *vh.Run, e *wl.Env) {
 		// 1. wrong passphrases
 		wrongs := map[string][]byte{
 			"other": wl.FreshPass(rng), "public-of-source": e.M.Pub, "public-of-target": te.M.Pub, "ill-formed": []byte("no"), "empty": {},
-			"current+1char": append(append([]byte{}, ex.Pass...), 'x'),
+			"current+1char":                       append(append([]byte{}, ex.Pass...), 'x'),
+			"current+NUL":                         append(append([]byte{}, ex.Pass...), 0),
+			"current+NUL:explicit-new-passphrase": append(append([]byte{}, ex.Pass...), 0, 0),
 		}
 		for i, p := range e.M.OldPriv {
 			if string(p) != string(ex.Pass) {
@@ -206,7 +209,11 @@ func crossWallet(run *vh.Run, e *wl.Env) {
 			if string(p) == string(ex.Pass) {
 				continue
 			}
-			id, err := try(ex.JSON, p, newPass)
+			np := newPass
+			if cls == "current+NUL:explicit-new-passphrase" {
+				np = effPass // spelled out, and well-formed: only the file's passphrase is wrong
+			}
+			id, err := try(ex.JSON, p, np)
 			run.Count("wrong_passphrase_imports", 1)
 			if err == nil {
 				te.Report([]string{"C01", "C03"}, "import-with-wrong-passphrase-accepted", map[string]string{"old_class": cls, "target": "other-wallet"}, nil)
@@ -226,7 +233,7 @@ func crossWallet(run *vh.Run, e *wl.Env) {
 			}
 			run.Count("tampered_imports", 1)
 			run.Count("tamper_field:"+tc.Field, 1)
-			if mem, work := scryptDemand(tc.JSON); mem > 64<<20 || work > 1<<22 {
+			if mem, work := scryptDemand(tc.JSON); mem > 64<<20 || work > 1<<22 || strings.HasPrefix(tc.Mutation, "cost:") {
 				// corrupted cost parameters: an in-process attempt could exhaust memory and take the monitor down
 				importInChild(run, te, tc, ex.Pass, newPass, ti)
 				continue
